@@ -29,6 +29,7 @@ SNAP_FIELDS = ("active authenticated authenticated_raw options_locked disabled l
                "outfragresent fragsize outpacketq_filled encbits").split()
 
 WATCHDOG_S = float(os.environ.get("VERIF_WATCHDOG", "20"))
+SPIN_LIMIT = int(os.environ.get("VERIF_SPIN_LIMIT", "100000"))
 
 
 def ip_family(ip):
@@ -87,6 +88,9 @@ class Proc:
         self.logdir = None
         self.next_port = 40000
         self.nwaits = 0
+        self.spin_t = -1
+        self.spin_n = 0
+        self.spinning = False
 
     def alive(self):
         return self.state in ("running", "wait", "sleep", "new")
@@ -252,6 +256,24 @@ class Kernel:
                     self.emit("wait", p.name, fds=fds, timeout=to, snap=p.snap_seq)
                 ready = self._ready(p, fds)
                 if ready:
+                    # a process that keeps finding something readable without ever consuming it spins forever at
+                    # one virtual instant (computation takes no virtual time): bound it and report a busy loop
+                    if p.spin_t == self.now:
+                        p.spin_n += 1
+                        if p.spin_n > SPIN_LIMIT:
+                            p.state = "stalled"
+                            p.spinning = True
+                            self.stalled = p.name
+                            self.emit("spin", p.name, fds=fds, ready=ready)
+                            try:
+                                p.popen.kill()
+                                p.popen.wait()
+                            except OSError:
+                                pass
+                            return
+                    else:
+                        p.spin_t = self.now
+                        p.spin_n = 0
                     self._reply(p, struct.pack("<H%di" % len(ready), len(ready), *ready))
                     continue
                 if to == 0:
